@@ -118,7 +118,7 @@ def check(case):
             partials[i] = partials[i].zero() + partials[i]
         elif how == "times1" and not transforms:
             partials[i] = partials[i] * 1.0
-        elif how == "reload" and not transforms and not boolcat:
+        elif how == "reload" and not boolcat:  # (a reloaded partial has lost its Count transforms - by design - but its content is final)
             partials[i] = hg.Factory.fromJson(partials[i].toJson())
     dparts = [doc(p) for p in partials]
 
